@@ -294,7 +294,7 @@ def r01_2(chk):
         return
     lp = loops[0]
     pv = lp.target.id
-    # symbolic execution of the body with h0 = H0, ply.t = T
+    # abstract interpretation of the body over polynomial terms with h0 = H0, ply.t = T
     env = {'h0': S('H0')}
     acc = {}
 
@@ -429,7 +429,8 @@ class _Stop(Exception):
 
 
 def _exec_laminaprop(fn, n):
-    """symbolic execution of read_laminaprop for a material tuple of length n (entries p0..p(n-1)): sequences are python lists of
+    """abstract interpretation (term domain: rational functions of the tuple entries; every test is decided on the abstract value, no
+    path constraints, no solver) of read_laminaprop for a material tuple of length n (entries p0..p(n-1)): sequences are python lists of
     Rat, scalars are Rat; tests on len() / None are decided; -> {attribute of the MatLamina object: Rat}"""
     par = fn.args.args[0].arg
     env = {par: [Rat(S('p%d' % k)) for k in range(n)]}
@@ -563,7 +564,7 @@ def _exec_laminaprop(fn, n):
 
 
 def r01_4(chk):
-    """read_laminaprop, executed symbolically for material tuples of length 3, 6 and 9: the attributes of the MatLamina object as
+    """read_laminaprop, interpreted over the term domain for material tuples of length 3, 6 and 9 (the three documented forms): the attributes of the MatLamina object as
     rational functions of the entries (whatever temporaries, branch layout or tuple/list idiom the code uses)"""
     m = module(MATLAMINA)
     fn = m.function('read_laminaprop')
@@ -584,7 +585,7 @@ def r01_4(chk):
             full = p[:9]
         want = {'e1': full[0], 'e2': full[1], 'nu12': full[2], 'g12': full[3], 'g13': full[4], 'g23': full[5], 'e3': full[6], 'nu13': full[7], 'nu23': full[8],
                 'nu21': full[2] * full[1] / full[0], 'nu31': full[7] * full[6] / full[0], 'nu32': full[8] * full[6] / full[1]}
-        chk.ob('R01.4', err is None, MATLAMINA, fname, 'symbolic execution for a %d-entry tuple' % n, got=err, expected='every statement on the path understood')
+        chk.ob('R01.4', err is None, MATLAMINA, fname, 'term-domain interpretation for a %d-entry tuple' % n, got=err, expected='every statement on the path understood')
         for k, w in want.items():
             g_ = got.get(k)
             ok = isinstance(g_, Rat) and g_.equals(w)
